@@ -264,3 +264,5 @@ func fatalf(format string, a ...interface{}) {
 	fmt.Printf("ERROR: "+format+"\n", a...)
 	os.Exit(2)
 }
+
+func timeUp(jc *JobCtx) bool { return !jc.Deadline.IsZero() && time.Now().After(jc.Deadline) }
